@@ -585,7 +585,7 @@ func checkReadSectionLength(r *core.Report, rule string) {
 					ri := rb.Pkg.TypesInfo
 					inc := false
 					for _, n := range stmtNodes(rg) {
-						if s, ok := n.Ast.(*ast.IncDecStmt); ok && s.Tok == token.INC {
+						if _, isInc := addsOne(ri, n.Ast); isInc {
 							// dominated by err == nil
 							for _, fc := range rg.FactsAt(n) {
 								if _, eq, ok := core.NilCompare(ri, fc.Expr); ok && eq == fc.Truth {
